@@ -26,7 +26,8 @@ CONSTANTS Dev,        \* named deviations of the real code (DESIGN 2.6)
           EntQKinds,  \* query kinds explored in the ENT hierarchy shapes
           MaxRuns     \* validations of the same question on ONE context (caches persist)
 
-DevNames == {"D_nsec3_label_expect", "D_ttl0_node_panic", "D_extra_rrset_ignored"}
+DevNames == {"D_nsec3_label_expect", "D_ttl0_node_panic", "D_extra_rrset_ignored",
+             "D_sigcache_ignores_time"}
 
 -----------------------------------------------------------------------------
 (* Hierarchy *)
@@ -149,7 +150,9 @@ HonestFetch(sh, den, t, z) ==
 -----------------------------------------------------------------------------
 (* Signature verification = term equality *)
 
-TimeOk(s) == s.time = "ok"
+\* "short": valid now, expired once time has passed (TimePasses)
+VARIABLE late     \* time has passed: signatures with a short remaining life are expired
+TimeOk(s) == s.time = "ok" \/ (s.time = "short" /\ ~late)
 SigValid(s, g, keys) == /\ s.sg.key \in keys
                         /\ s.sg = Sign(s.sg.key, Content(g))
                         /\ TimeOk(s)
@@ -193,13 +196,14 @@ VARIABLES scn,      \* [shape, denial, qk]
           probes,   \* DS probes for non-apex names still to be sent
           served,   \* fetch key -> message as delivered (for the oracle)
           fetches,  \* history of fetches, in order
+          shortz,   \* zones whose cached node is only valid for that short time
           run,      \* number of the current validation on this context
           hist,     \* earlier runs: <<[adv, result]>>
           entp,     \* the ENT above the leaf zone has been looked at
           result, steps
 
 vars == <<scn, budget, advlog, pc, pend, inbox, msg, gi, gst, walk, node, tkeys,
-          dsd, ttl0, probes, served, fetches, entp, run, hist, result, steps>>
+          dsd, ttl0, probes, served, fetches, entp, late, shortz, run, hist, result, steps>>
 
 AllZones == {"root", "tld", "zone", "sub", "other", "plain"}
 FKey(t, z) == <<t, z>>
@@ -212,7 +216,7 @@ Init ==
   /\ inbox = HonestAnswer(scn.shape, scn.denial, scn.qk)
   /\ msg = <<>> /\ gi = 1 /\ gst = <<>> /\ walk = <<>>
   /\ node = [z \in AllZones |-> "none"] /\ tkeys = [z \in AllZones |-> {}]
-  /\ dsd = {} /\ ttl0 = {} /\ probes = 0 /\ entp = FALSE /\ run = 1 /\ hist = <<>>
+  /\ dsd = {} /\ ttl0 = {} /\ probes = 0 /\ entp = FALSE /\ run = 1 /\ hist = <<>> /\ late = FALSE /\ shortz = {}
   /\ served = <<>> /\ fetches = <<>> /\ result = "none" /\ steps = 0
 
 -----------------------------------------------------------------------------
@@ -233,7 +237,7 @@ CanAdv(act) == /\ pc = "wire" /\ budget > 0 /\ act \in AdvActs
 Rewrite(act, role, m) ==
   /\ inbox' = m /\ budget' = budget - 1 /\ advlog' = Log(act, role)
   /\ steps' = steps + 1
-  /\ UNCHANGED <<run, hist, entp, scn, pc, pend, msg, gi, gst, walk, node, tkeys, dsd, ttl0, probes,
+  /\ UNCHANGED <<late, shortz, run, hist, entp, scn, pc, pend, msg, gi, gst, walk, node, tkeys, dsd, ttl0, probes,
                  served, fetches, result>>
 
 SignedRole(r) == Has(inbox, r) /\ Get(inbox, r).sigs # {}
@@ -327,6 +331,14 @@ Adv_AddExtraDs ==
                    MapRole(inbox, "ans", LAMBDA g :
                      LET h == [g EXCEPT !.rdata = g.rdata \cup {CollKey(pend.z, first)}] IN
                      [h EXCEPT !.sigs = {Sig(g.zone, h, "ok")}]))
+
+\* an honest signature with only a few seconds of validity left: nothing
+\* changes now; a node built from it may be cached only that long
+Adv_ShortSig ==
+  /\ CanAdv("ShortSig") /\ SignedRole("ans")
+  /\ ~Get(inbox, "ans").wild     \* (the harness cannot re-sign an expanded wildcard as such)
+  /\ Rewrite("ShortSig", "ans", MapRole(inbox, "ans", LAMBDA g : [g EXCEPT !.sigs =
+        {[TheSig(g) EXCEPT !.time = "short"]}]))
 
 \* the same RRset and RRSIG fields, different signature octets
 Adv_CorruptSigOctets ==
@@ -430,7 +442,7 @@ Adv_CnameLoop ==
   /\ Rewrite("CnameLoop", "", LoopAnswer(scn.shape))
 
 AdvNext == \/ Adv_DropRrsig \/ Adv_DropRrset \/ Adv_ReplaceRdata \/ Adv_WrongSigner
-           \/ Adv_Expire \/ Adv_NotYetValid \/ Adv_AddCollidingKey \/ Adv_AddExtraDs \/ Adv_CorruptSigOctets \/ Adv_HideCe
+           \/ Adv_Expire \/ Adv_NotYetValid \/ Adv_ShortSig \/ Adv_AddCollidingKey \/ Adv_AddExtraDs \/ Adv_CorruptSigOctets \/ Adv_HideCe
            \/ Adv_ReplayAncestor \/ Adv_ForgeSigned \/ Adv_AddBadSig \/ Adv_CorruptKey \/ Adv_CorruptDs
            \/ Adv_StripProof \/ Adv_ForgeNsecRange \/ Adv_SwapProof
            \/ Adv_BadNsec3Label \/ Adv_BadNsec3LabelSigned \/ Adv_ZeroCounts
@@ -452,7 +464,7 @@ Deliver ==
   /\ IF pend.t = "ANS"
      THEN msg' = inbox /\ pc' = "group"
      ELSE msg' = msg /\ pc' = IF pend.t = "DS" THEN "vds" ELSE "vkey"
-  /\ UNCHANGED <<run, hist, entp, scn, budget, advlog, pend, inbox, gi, gst, walk, node, tkeys, dsd,
+  /\ UNCHANGED <<late, shortz, run, hist, entp, scn, budget, advlog, pend, inbox, gi, gst, walk, node, tkeys, dsd,
                  ttl0, probes, fetches, result>>
 
 \* Group::validate_with_vc: the zone whose node decides about this group
@@ -490,7 +502,7 @@ StartGroup ==
        /\ walk' = w
        /\ probes' = IF g.sigs = {} /\ ~AtCut(g) THEN g.depth ELSE 0
        /\ pc' = IF w # <<>> THEN "walk" ELSE "probe"
-  /\ UNCHANGED <<run, hist, entp, scn, budget, advlog, pend, inbox, msg, gi, gst, node, tkeys, dsd,
+  /\ UNCHANGED <<late, shortz, run, hist, entp, scn, budget, advlog, pend, inbox, msg, gi, gst, node, tkeys, dsd,
                  ttl0, served, fetches, result>>
 
 Issue(t, z) ==
@@ -514,9 +526,12 @@ FetchNext ==
             /\ UNCHANGED <<pend, inbox, fetches>>
        ELSE /\ Issue(IF z = "root" THEN "DNSKEY" ELSE "DS", z)
             /\ UNCHANGED result
-  /\ UNCHANGED <<run, hist, entp, scn, budget, advlog, msg, gi, gst, walk, node, tkeys, dsd, ttl0,
+  /\ UNCHANGED <<late, shortz, run, hist, entp, scn, budget, advlog, msg, gi, gst, walk, node, tkeys, dsd, ttl0,
                  probes, served>>
 
+\* node validity = min(TTLs, remaining signature lifetime) of what it was built from
+ShortMsg == pend.t \in {"DS", "DNSKEY"} /\ Has(inbox, "ans") /\
+            \E s \in Get(inbox, "ans").sigs : s.time = "short"
 SetNode(z, st, keys) ==
   /\ node' = [node EXCEPT ![z] = st]
   /\ tkeys' = [tkeys EXCEPT ![z] = keys]
@@ -535,7 +550,7 @@ EntProbe ==
   /\ IF UsesTtl0("tld") THEN Finish("panic") /\ UNCHANGED <<node, tkeys, ttl0, walk>>
      ELSE IF EntStops THEN SetNode("zone", "Insecure", {}) /\ UNCHANGED result
      ELSE UNCHANGED <<node, tkeys, ttl0, walk, pc, result>>
-  /\ UNCHANGED <<run, hist, scn, budget, advlog, pend, inbox, msg, gi, gst, dsd, probes, served>>
+  /\ UNCHANGED <<late, shortz, run, hist, scn, budget, advlog, pend, inbox, msg, gi, gst, dsd, probes, served>>
 
 \* DNSKEY RRset arrived: trust anchor (root) or DS-committed key (child)
 VerifyKey ==
@@ -549,7 +564,8 @@ VerifyKey ==
                     /\ ~TooManyBad(g)
      IN IF ok THEN SetNode(z, "Secure", Get(inbox, "ans").rdata)
         ELSE SetNode(z, "Bogus", {})
-  /\ UNCHANGED <<run, hist, entp, scn, budget, advlog, pend, inbox, msg, gi, gst, dsd, probes, served,
+  /\ shortz' = IF ShortMsg THEN shortz \cup {pend.z} ELSE shortz
+  /\ UNCHANGED <<late, run, hist, entp, scn, budget, advlog, pend, inbox, msg, gi, gst, dsd, probes, served,
                  fetches, result>>
 
 ProofGood(g, z, keys) ==   \* validly signed by zone z, and it proves what is needed
@@ -581,7 +597,8 @@ VerifyDs ==
                    /\ Get(inbox, "nx").prf.optout
           IN /\ SetNode(z, IF insecure THEN "Insecure" ELSE "Bogus", {})
              /\ UNCHANGED <<dsd, pend, inbox, fetches, result>>
-  /\ UNCHANGED <<run, hist, entp, scn, budget, advlog, msg, gi, gst, probes, served>>
+  /\ shortz' = IF ShortMsg THEN shortz \cup {pend.z} ELSE shortz
+  /\ UNCHANGED <<late, run, hist, entp, scn, budget, advlog, msg, gi, gst, probes, served>>
 
 \* an unsigned RRset below a Secure zone: get_node walks to the owner name
 \* with DS queries for the non-apex names (never an adversary target here)
@@ -593,7 +610,7 @@ Probe ==
           /\ fetches' = Append(fetches, [t |-> "DS", z |-> "name"])
           /\ pc' = "probe"
      ELSE /\ probes' = 0 /\ fetches' = fetches /\ pc' = "check"
-  /\ UNCHANGED <<run, hist, entp, scn, budget, advlog, pend, inbox, msg, gi, gst, walk, node, tkeys, dsd,
+  /\ UNCHANGED <<late, shortz, run, hist, entp, scn, budget, advlog, pend, inbox, msg, gi, gst, walk, node, tkeys, dsd,
                  ttl0, served, result>>
 
 \* RFC 5155 section 6: an Opt-Out NSEC3 does not assert the (non)existence of
@@ -624,7 +641,7 @@ CheckGroup ==
      THEN Finish("Bogus") /\ UNCHANGED <<gst, gi>>
      ELSE /\ gst' = Append(gst, st) /\ gi' = gi + 1 /\ pc' = "group"
           /\ UNCHANGED result
-  /\ UNCHANGED <<run, hist, entp, scn, budget, advlog, pend, inbox, msg, walk, node, tkeys, dsd, ttl0,
+  /\ UNCHANGED <<late, shortz, run, hist, entp, scn, budget, advlog, pend, inbox, msg, walk, node, tkeys, dsd, ttl0,
                  probes, served, fetches>>
 
 \* --- classification of the validated answer (validate_msg after the groups) ---
@@ -693,22 +710,36 @@ Judge ==
   /\ pc = "group" /\ gi > Len(msg) /\ Step
   /\ IF BadLabelSeen /\ "D_nsec3_label_expect" \in Dev
      THEN Finish("panic") ELSE Finish(Verdict)
-  /\ UNCHANGED <<run, hist, entp, scn, budget, advlog, pend, inbox, msg, gi, gst, walk, node, tkeys, dsd,
+  /\ UNCHANGED <<late, shortz, run, hist, entp, scn, budget, advlog, pend, inbox, msg, gi, gst, walk, node, tkeys, dsd,
                  ttl0, probes, served, fetches>>
 
 \* the same question is validated again on the same context: the node cache
 \* (and, invisibly, the signature and NSEC3-hash caches) persists; the answer
 \* and any fetch that is still needed may again be rewritten
+\* Between two validations time may pass (tp: beyond the remaining life of the
+\* "short" signatures - nodes built from them, and everything below, expire
+\* and are fetched again) and the zones may be re-salted (rs: a new NSEC3 chain
+\* over the same content and keys; the NSEC3-hash cache must not notice).
+ExpiredAt == {z \in AllZones : Anc(z) \cap shortz # {}}
 NextQuery ==
   /\ pc = "done" /\ run < MaxRuns /\ result # "panic"
+  /\ \E tp \in BOOLEAN, rs \in BOOLEAN :
+       /\ tp => ~late /\ "TimePasses" \in AdvActs
+       /\ rs => scn.denial # "nsec" /\ "Resalt" \in AdvActs
+       /\ hist' = Append(hist, [adv |-> advlog, result |-> result, tp |-> tp, rs |-> rs])
+       /\ late' = (late \/ tp)
+       /\ IF tp THEN /\ node' = [z \in AllZones |-> IF z \in ExpiredAt THEN "none" ELSE node[z]]
+                     /\ tkeys' = [z \in AllZones |-> IF z \in ExpiredAt THEN {} ELSE tkeys[z]]
+                     /\ shortz' = {}
+                     /\ entp' = IF "zone" \in ExpiredAt \/ "tld" \in ExpiredAt THEN FALSE ELSE entp
+          ELSE UNCHANGED <<node, tkeys, shortz, entp>>
   /\ run' = run + 1
-  /\ hist' = Append(hist, [adv |-> advlog, result |-> result])
   /\ advlog' = <<>> /\ budget' = Budget
   /\ pc' = "wire" /\ pend' = [t |-> "ANS", z |-> Leaf(scn.shape)]
   /\ inbox' = HonestAnswer(scn.shape, scn.denial, scn.qk)
   /\ msg' = <<>> /\ gi' = 1 /\ gst' = <<>> /\ walk' = <<>> /\ probes' = 0
   /\ result' = "none" /\ steps' = 0
-  /\ UNCHANGED <<scn, node, tkeys, dsd, ttl0, served, fetches, entp>>
+  /\ UNCHANGED <<scn, dsd, ttl0, served, fetches>>
 
 Done == pc = "done" /\ (run = MaxRuns \/ result = "panic") /\ UNCHANGED vars
 
@@ -808,6 +839,7 @@ NoInj(m) == SelectSeq(m, LAMBDA g : g.role # "inj")
 \* the validator's documented tolerance
 BenignLog(log) ==
   \/ \A i \in 1..Len(log) : log[i].act \in {"AddBadSig1First", "AddBadSig1Last"}
+  \/ ~late /\ \A i \in 1..Len(log) : log[i].act = "ShortSig"
   \/ Len(log) = 1 /\ log[1].act \in {"AddCollidingKeyFirst", "AddCollidingKeyLast",
                                          "AddExtraDsFirst", "AddExtraDsLast"}
 \* (over all runs on this context: earlier runs' nodes are cached, and a second
